@@ -1138,6 +1138,7 @@ fn quote_into_trait(input: &DataType, ctx: &ImplContext, pre_init: Option<TokenS
 
     let body = match post_init {
         Some(post_init) => quote! {
+            #pre_init
             let mut obj: #dst = Default::default();
             #init
             #post_init
@@ -1168,6 +1169,7 @@ fn quote_try_into_trait(input: &DataType, ctx: &ImplContext, pre_init: Option<To
 
     let body = match post_init {
         Some(post_init) => quote! {
+            #pre_init
             let mut obj: #dst = Default::default();
             #init
             #post_init
